@@ -171,8 +171,9 @@ class Allocator:
 def serialize(disc: Disc, rng, shapes=("contiguous", "reversed", "random", "sorted", "head-not-lowest", "rotl", "hi-lo")) -> Tuple[bytes, dict]:
     """-> image bytes, info (chains chosen per file, for coverage statistics)."""
     out = bytearray()
-    info = {"chains": [], "dir_modes": [], "exact_fill": 0, "head_not_lowest": 0}
-    for p in disc.partitions:
+    info = {"chains": [], "dir_modes": [], "exact_fill": 0, "head_not_lowest": 0, "files": []}
+    for pi, p in enumerate(disc.partitions):
+        pstart = len(out)
         part = bytearray(p.sectors * SECTOR)
         alloc = Allocator(rng, p.sectors)
         ventries = bytearray()
@@ -180,6 +181,7 @@ def serialize(disc: Disc, rng, shapes=("contiguous", "reversed", "random", "sort
             # files first (their start sectors go into the directory) unless the volume asks otherwise
             entries = bytearray()
             pre_dsecs = None
+            vol_files = []
             if v.dir_first:
                 nd0 = max(v.dir_sectors, nsectors(24 * (len(v.files) + 1)))
                 if v.dir_mode == "run":
@@ -195,6 +197,7 @@ def serialize(disc: Disc, rng, shapes=("contiguous", "reversed", "random", "sort
                 secs = alloc.take(n, shape)
                 alloc.chain(secs)
                 info["chains"].append(secs)
+                vol_files.append({"part": pi, "pstart": pstart, "vol": v.name, "name": f.name, "kind": f.kind, "secs": list(secs), "nbytes": len(data)})
                 if len(secs) > 1 and secs[0] != min(secs):
                     info["head_not_lowest"] += 1
                 if len(data) % SECTOR == 0:
@@ -214,6 +217,9 @@ def serialize(disc: Disc, rng, shapes=("contiguous", "reversed", "random", "sort
                 dsecs = alloc.take(nd, rng.choice(shapes))
                 alloc.chain(dsecs)
             info["dir_modes"].append(v.dir_mode)
+            for vf in vol_files:
+                vf["dsecs"] = list(dsecs)
+                info["files"].append(vf)
             padded = table + bytes(nd * SECTOR - len(table))
             for k, s in enumerate(dsecs):
                 part[s * SECTOR : (s + 1) * SECTOR] = padded[k * SECTOR : (k + 1) * SECTOR]
